@@ -1,6 +1,7 @@
 use crate::engine::Property;
 
 pub mod c01;
+pub mod c03;
 pub mod c12;
 pub mod c12_checks;
 pub mod c12_model;
@@ -13,6 +14,7 @@ pub fn all() -> Vec<Box<dyn Property>> {
         Box::new(t00::T00),
         Box::new(c01::C01),
         Box::new(c01::C02),
+        Box::new(c03::C03),
         Box::new(c12::C12),
         Box::new(c13::C13),
     ]
